@@ -840,6 +840,21 @@ func (w *World) EntryArgs(e *Entry) []ai.Value {
 	for i, p := range e.Fn.Params {
 		if i < len(e.Args) && e.Args[i] != nil {
 			args[i] = e.Args[i]
+			// a method is entered only with a non-nil receiver: callers test optional
+			// components (display, speakers) before calling (checked by C26)
+			if m, ok := args[i].(*ai.Multi); ok && i == 0 {
+				var alts []ai.Value
+				for _, a := range m.Alts {
+					if _, isNil := a.(*ai.NilV); !isNil {
+						alts = append(alts, a)
+					}
+				}
+				if len(alts) == 1 {
+					args[i] = alts[0]
+				} else if len(alts) > 1 {
+					args[i] = &ai.Multi{Alts: alts}
+				}
+			}
 			continue
 		}
 		args[i] = w.ParamValue(e.Fn, i, p.Type())
